@@ -2,6 +2,9 @@ import CJ.Lemmas.DtlsListener
 import CJ.Lemmas.Heartbeat
 import CJ.Gen.C16Source
 import CJ.Lemmas.DtlsDerive
+import CJ.Lemmas.AcceptLoop
+import CJ.Gen.C16AcceptLoop
+import CJ.Drv.AcceptLoop
 /-!
 # C16 — DTLS sessions: same secret on both ends, right acceptor, faithful byte stream
 
@@ -767,5 +770,94 @@ theorem derivations_take_the_configured_secret :
     seedCallers ≠ [] ∧ ∀ c ∈ seedCallers, c.2.2 = "config.PSK" := by decide
 
 end derivation
+
+/-! ## the listener over its whole life
+
+One `Listener` serves every session of the station's life.  `CJ.AcceptLoop` is the accept loop as a
+transition system over a history of handshakes, generic in what is taken per accepted connection
+and on which exits of the handshake goroutine it is given back; the shape of the real
+`acceptLoop` is regenerated from the source. -/
+section life
+open CJ.AcceptLoop
+
+/-- **No state accumulates.**  If every exit path that occurs gives every resource back, then after
+*any* history of handshakes — failed at once, failed after the timeout, completed without an
+acceptor, delivered, given up; any number, any order, any number in flight at a time — once the
+handshakes in flight have ended nothing is held. -/
+theorem listener_history_leaves_nothing_held (rs : List Res) (evs : List Ev)
+    (hb : ∀ e ∈ evs, ∀ p, e.path = some p → Balanced rs p) :
+    (run rs (init rs) (evs ++ [.settle])).flight = [] ∧
+    (run rs (init rs) (evs ++ [.settle])).held = rs.map fun _ => 0 := by
+  have hi : Inv rs (run rs (init rs) (evs ++ [.settle])) := by
+    apply inv_run rs _ _ (inv_init rs)
+    intro e he p hp
+    rcases List.mem_append.mp he with h | h
+    · exact hb e h p hp
+    · have : e = .settle := by simpa using h
+      subst this; cases hp
+  have hf : (run rs (init rs) (evs ++ [.settle])).flight = [] := by
+    rw [run_append]; simp [run, step]
+  exact ⟨hf, by rw [hi.1, hf]; simp⟩
+
+/-- … so **the next matching pair is taken** exactly like the first one, whatever came before
+(every bounded resource has room for at least one handshake). -/
+theorem next_connection_is_taken_after_any_history (rs : List Res) (evs : List Ev)
+    (hb : ∀ e ∈ evs, ∀ p, e.path = some p → Balanced rs p)
+    (hcap : ∀ r ∈ rs, r.cap ≠ some 0) (p : Nat) :
+    (step rs (run rs (init rs) (evs ++ [.settle])) (.fast p)).2 = true := by
+  have h := (listener_history_leaves_nothing_held rs evs hb).2
+  simp only [step, h, canTake_zero rs hcap, if_true]
+
+/-- The hypothesis is what matters: one exit that keeps a slot of a 32-slot semaphore (released after a
+successful handshake, not after a failed one) and 32 failed handshakes over the life of the listener
+— one at a time, nothing ever in flight together — block the loop for good: the matching pair
+after them is not taken, nor any later one. -/
+theorem one_leaking_exit_blocks_the_listener :
+    let rs : List Res := [{ cap := some 32, released := [false, true, true, true] }]
+    taken rs (init rs) (List.replicate 31 (.fast 0) ++ [.fast 2, .fast 0, .settle, .fast 2, .fast 2]) =
+      List.replicate 31 true ++ [true, true, true, false, false] := by decide
+
+/-- the shape of the real accept loop -/
+def sourceLoop : List Res :=
+  CJ.Gen.C16AcceptLoop.resources.map fun (x : String × String × String × String × Option Nat × List Bool) =>
+    { cap := x.2.2.2.2.1, released := x.2.2.2.2.2 }
+
+/-- the model line `loop|…` of the harness is run on exactly this shape -/
+theorem driver_runs_the_source_loop : CJ.Drv.AcceptLoop.sourceShape = sourceLoop := rfl
+
+/-- **The exits of the handshake goroutine are the four the model numbers** (regenerated from the
+source): handshake failed, no acceptor registered, sent to the acceptor, gave up after the timeout;
+the end of the function cannot be reached. -/
+theorem accept_loop_exits_are_modelled :
+    CJ.Gen.C16AcceptLoop.exits =
+      ["if err != nil", "if err != nil", "select case acceptCh <- newDTLSConn", "select case <-ctx.Done()"] := by
+  decide
+
+/-- **Every acquire has its release on every exit** (regenerated from the source): whatever the loop
+or the goroutine takes per connection out of a shared supply — a slot of a channel, a counter, a map
+entry, a lock, a context — is given back on each of the exit paths (directly or by a `defer`), and
+no supply is empty from the start. -/
+theorem accept_loop_returns_everything_on_every_exit :
+    (∀ r ∈ CJ.Gen.C16AcceptLoop.resources,
+        r.2.2.2.2.2.length = CJ.Gen.C16AcceptLoop.exits.length ∧ r.2.2.2.2.2.all id = true ∧ r.2.2.2.2.1 ≠ some 0) ∧
+    CJ.Gen.C16AcceptLoop.resources.map (fun r => (r.1, r.2.1)) = [("cancel", "context")] := by
+  decide
+
+theorem sourceLoop_balanced : ∀ p, p < 4 → ∀ r ∈ sourceLoop, relOn r p = true := by decide
+
+/-- **The real listener after any history.**  Whatever handshakes the listener has been through —
+any number, on any of its four exits, in any order, any number in flight — the next connection is
+taken by the accept loop. -/
+theorem source_listener_takes_next_connection (evs : List Ev)
+    (hp : ∀ e ∈ evs, ∀ p, e.path = some p → p < 4) (p : Nat) :
+    (step sourceLoop (run sourceLoop (init sourceLoop) (evs ++ [.settle])) (.fast p)).2 = true :=
+  next_connection_is_taken_after_any_history sourceLoop evs
+    (fun e he q hq => sourceLoop_balanced q (hp e he q hq)) (by decide) p
+
+example : taken sourceLoop (init sourceLoop)
+    (List.replicate 40 (.fast 0) ++ List.replicate 20 (.slow 3) ++ [.fast 2]) = List.replicate 61 true := by
+  decide
+
+end life
 
 end CJ.Props.C16
